@@ -88,11 +88,9 @@ theorem gen_dhp_shrink (k : Kind) (c : Cfg) (f : Gen.doubleHashDictionary) (h : 
       else ({ ofDDict k c f with buf := rb, dict := .double ⟨(ofHash f.h1).shiftOffsets d, (ofHash f.h2).shiftOffsets d⟩ }, d) := by
     simp only [Parser.shrink, ofDDict, hr]
   rw [hps]
+  -- the test `delta > 0` (or `delta <= 0` with an early return): one arm is contradictory
   by_cases hd : d = 0
   · subst hd
-    have : ¬ ((0 : Nat) : Int) > 0 := by omega
-    simp only [this, if_false, bind_ok, if_true]
-    refine ⟨_, rfl, ?_, ⟨hwf, hh1, hh2⟩⟩
     have hrb : rb = ofPB f.ParserBuffer := by
       have e : rb = (PBuf.shrink (ofPB f.ParserBuffer)).1 := by rw [hr]
       have e2 : (PBuf.shrink (ofPB f.ParserBuffer)).2 = 0 := by rw [hr]
@@ -100,13 +98,22 @@ theorem gen_dhp_shrink (k : Kind) (c : Cfg) (f : Gen.doubleHashDictionary) (h : 
       split
       · rfl
       · rename_i hn; rw [if_neg hn] at e2; simp only at e2; omega
-    simp only [ofDDict, hof, hrb]
-  · have : ((d : Nat) : Int) > 0 := by omega
-    obtain ⟨g1, hg1, hofg1, hwg1⟩ := gen_hash_shiftOffsets f.h1 (UInt32.ofInt (d : Int)) hh1
+    simp only [if_true]
+    split
+    all_goals first
+      | (exfalso; omega)
+      | ((try simp only [bind_ok])
+         refine ⟨_, rfl, ?_, ⟨hwf, hh1, hh2⟩⟩
+         simp only [ofDDict, hof, hrb])
+  · obtain ⟨g1, hg1, hofg1, hwg1⟩ := gen_hash_shiftOffsets f.h1 (UInt32.ofInt (d : Int)) hh1
     obtain ⟨g2, hg2, hofg2, hwg2⟩ := gen_hash_shiftOffsets f.h2 (UInt32.ofInt (d : Int)) hh2
-    simp only [this, if_true, hg1, hg2, bind_ok, hd, if_false]
-    refine ⟨_, rfl, ?_, ⟨hwf, hwg1, hwg2⟩⟩
-    simp only [ofDDict, hof, hofg1, hofg2, toNat_ofInt32_small d hdlt]
+    simp only [hd, if_false]
+    split
+    all_goals first
+      | (exfalso; omega)
+      | (simp only [hg1, hg2, bind_ok]
+         refine ⟨_, rfl, ?_, ⟨hwf, hwg1, hwg2⟩⟩
+         simp only [ofDDict, hof, hofg1, hofg2, toNat_ofInt32_small d hdlt])
 
 /-! ## the bucket parser -/
 
